@@ -91,6 +91,7 @@ func c19R1(p *Prog, r *Report) {
 	r.Check(nSel >= 3, rule, "clientgroups:selectors-found", "clientgroups", fmt.Sprintf("%d selectors", nSel), fmt.Sprintf("only %d *ClientSelector.Select methods found", nSel))
 	// Stores to selected
 	nStore := 0
+	nInitDirect := 0
 	p.AllFuncs(pkg, func(fc *FuncCtx) {
 		for _, ctx := range allCtxs(p, fc) {
 			info := ctx.Info()
@@ -108,6 +109,24 @@ func c19R1(p *Prog, r *Report) {
 					if ix, isIx := ast.Unparen(ue.X).(*ast.IndexExpr); isIx && c19ClientsField(info, ix.X) {
 						if root, _, okp := pathOf(info, ix.X); okp && root == ctx.ParamObj(2) {
 							ok = true
+						}
+					}
+					// the initial choice written by the constructor itself (init expanded in place):
+					// &clients[0] of the very slice handed to the probe configuration
+					if ix, isIx := ast.Unparen(ue.X).(*ast.IndexExpr); isIx {
+						if k, isC := constInt(info, ix.Index); isC && k == 0 {
+							if slice := objOf(info, ix.X); slice != nil {
+								for _, cs2 := range ctx.AllCalls() {
+									if cs2.Fn != nil && cs2.Fn.Name() == "newProbeConfig" {
+										for _, a := range cs2.Call.Args {
+											if objOf(info, a) == slice {
+												ok = true
+												nInitDirect++
+											}
+										}
+									}
+								}
+							}
 						}
 					}
 				}
@@ -150,7 +169,7 @@ func c19R1(p *Prog, r *Report) {
 			r.Check(ok, rule, "clientgroups."+fc.Name+":initial-client-is-member", cs.Pos(), "the initial choice is element 0 of the slice given to the probe configuration", "the initial client is not &clients[0] of the slice handed to the probe configuration")
 		}
 	})
-	r.Check(nInit >= 2, rule, "clientgroups:atomic-init-sites", "clientgroups", fmt.Sprintf("%d", nInit), "atomic selector init call sites not found")
+	r.Check(nInit+nInitDirect >= 2, rule, "clientgroups:atomic-init-sites", "clientgroups", fmt.Sprintf("%d", nInit), "atomic selector init call sites not found")
 	// newProbeConfig: clients field is the parameter
 	for _, tn := range []string{"TCPConnectivityProbeConfig", "UDPConnectivityProbeConfig"} {
 		fc := p.Func("clientgroups", tn, "newProbeConfig")
@@ -261,6 +280,7 @@ func c19R2(p *Prog, r *Report) {
 	r.Rule(rule, "no skipped turn under concurrency: round-robin Select performs exactly one atomic operation on the shared index and it is Add(1) (a separate Load/Store/compare-and-swap pair is not one turn); the index is initialised to the value that makes the first turn index 0; nothing else writes the index")
 	pkg := p.Pkg("clientgroups")
 	nOps := map[string][]string{}
+	var ctorInit map[string]bool
 	p.AllFuncs(pkg, func(fc *FuncCtx) {
 		for _, ctx := range allCtxs(p, fc) {
 			info := ctx.Info()
@@ -275,7 +295,31 @@ func c19R2(p *Prog, r *Report) {
 				}
 				key := baseFuncName(ctx)
 				nOps[key] = append(nOps[key], sel.Sel.Name+"("+argsStr(cs.Call)+")")
-				if key == "init" {
+				// init written out in a constructor: the selector is part of a value declared in
+				// this very function (not yet published), and the store is the initial one
+				isCtor := false
+				if key != "Select" && key != "init" {
+					if root, _, okp := pathOf(info, inner); okp {
+						if rv, isVar := root.(*types.Var); isVar && rv != ctx.RecvObj() {
+							isParam := false
+							for i := 0; ctx.ParamObj(i) != nil; i++ {
+								if ctx.ParamObj(i) == root {
+									isParam = true
+								}
+							}
+							if !isParam && len(ctx.Defs(root)) <= 1 {
+								isCtor = true
+							}
+						}
+					}
+				}
+				if isCtor {
+					if ctorInit == nil {
+						ctorInit = map[string]bool{}
+					}
+					ctorInit[key] = true
+				}
+				if key == "init" || isCtor {
 					okInit := false
 					if sel.Sel.Name == "Store" && len(cs.Call.Args) == 1 {
 						if v, isC := constOf(info, cs.Call.Args[0]); isC {
@@ -293,7 +337,7 @@ func c19R2(p *Prog, r *Report) {
 	ops := nOps["Select"]
 	r.Check(len(ops) == 1 && ops[0] == "Add(1)", rule, "clientgroups.(*roundRobinClientSelector).Select:single-rmw", "clientgroups/clientgroups.go", "one Add(1)", fmt.Sprintf("a turn is not a single atomic Add(1): operations on the index in Select are %v — two concurrent selections can observe the same index or lose an increment, so clients are skipped or repeated", ops))
 	for k, v := range nOps {
-		if k != "Select" && k != "init" {
+		if k != "Select" && k != "init" && !ctorInit[k] {
 			r.Fail(rule, "clientgroups."+k+":touches-round-robin-index", "clientgroups", fmt.Sprintf("the round-robin index is accessed outside Select/init: %v", v))
 		}
 	}
